@@ -32,6 +32,7 @@ type sharedInfo struct {
 	stubs       map[string]*ssa.Function
 	prog        *ssa.Program
 	constInit   map[*ssa.Global]*ssa.Const
+	regexMemo   sync.Map // pattern -> compiled *regexp.Regexp value (see callSSA)
 }
 
 func newSharedInfo(cfg *Config) *sharedInfo {
